@@ -1,7 +1,7 @@
 //! Family "macros": one process = one global client (it can be set only once). A case invokes one
 //! statsd_* macro with 0..3 tags on a global client with a scripted sink and a counting error handler,
 //! and compares with what the tagged quiet send on the same client emits (C17).
-//! case syntax: m=<count|time|gauge|meter|histogram|distribution|set>;tags=<0..3>;fail=<0|1>;set=<0|1>;pre=<0|1>
+//! case syntax: m=<count|countbig (u64::MAX)|timedur (a rejected Duration)|gaugef (f64)|time|gauge|meter|histogram|distribution|set>;tags=<0..3>;fail=<0|1>;set=<0|1>;pre=<0|1>
 //!   pre=1: the same thread first invokes the macro while NO client is set (it must panic), then the client is set
 use cadence::prelude::*;
 use cadence::{MetricError, MetricSink, StatsdClient};
@@ -52,6 +52,9 @@ pub fn run_case(s: &str) -> Result<Vec<(String, String)>, String> {
     std::panic::set_hook(Box::new(|_| {}));
     let r = std::panic::catch_unwind(|| { match m.as_str() {
         "count" => invoke!(statsd_count, 4),
+        "countbig" => invoke!(statsd_count, u64::MAX),
+        "timedur" => invoke!(statsd_time, std::time::Duration::from_secs(u64::MAX)),
+        "gaugef" => invoke!(statsd_gauge, -0.25f64),
         "time" => invoke!(statsd_time, 15u64),
         "gauge" => invoke!(statsd_gauge, 7u64),
         "meter" => invoke!(statsd_meter, 2u64),
@@ -73,6 +76,9 @@ pub fn run_case(s: &str) -> Result<Vec<(String, String)>, String> {
     macro_rules! reference { ($b:expr) => {{ let mut b = $b; if tags >= 1 { b = b.with_tag("a", "1"); } if tags >= 2 { b = b.with_tag("b", "2"); } if tags >= 3 { b = b.with_tag("c", "3"); } b.send(); }} }
     match m.as_str() {
         "count" => reference!(client.count_with_tags("some.key", 4)),
+        "countbig" => reference!(client.count_with_tags("some.key", u64::MAX)),
+        "timedur" => reference!(client.time_with_tags("some.key", std::time::Duration::from_secs(u64::MAX))),
+        "gaugef" => reference!(client.gauge_with_tags("some.key", -0.25f64)),
         "time" => reference!(client.time_with_tags("some.key", 15u64)),
         "gauge" => reference!(client.gauge_with_tags("some.key", 7u64)),
         "meter" => reference!(client.meter_with_tags("some.key", 2u64)),
@@ -91,7 +97,7 @@ pub fn run_case(s: &str) -> Result<Vec<(String, String)>, String> {
 pub fn search(prop: &str, _seed: u64, _budget: u64) -> Option<(String, Vec<(String, String)>)> {
     if prop != "C17" { return None; }
     let exe = std::env::current_exe().ok()?;
-    for m in ["count", "time", "gauge", "meter", "histogram", "distribution", "set"] {
+    for m in ["count", "countbig", "timedur", "gaugef", "time", "gauge", "meter", "histogram", "distribution", "set"] {
         for tags in 0..4 { for fail in [0, 1] { for (set, pre) in [(1, 0), (0, 0), (1, 1)] {
             let case = format!("m={};tags={};fail={};set={};pre={}", m, tags, fail, set, pre);
             let out = std::process::Command::new(&exe).args(["run", "macros", &case]).output().ok()?;
